@@ -431,6 +431,7 @@ class Repo(object):
             objflat.expand_element_attributes(tree)
             objflat.unalias_memoised(tree)
             objflat.unwrap_memo_functions(tree)
+            objflat.inline_category_constants(tree)
             objflat.inline_bases(tree, lambda name, tree=tree, rel=rel: self._class_named(tree, rel, name))
             objflat.unfuse_factories(tree, lambda name, tree=tree, rel=rel: self._class_named(tree, rel, name))
             objflat.inline_skeletons(tree)
